@@ -333,6 +333,14 @@ def handle (op : String) (args : List String) : String :=
   | "nf", [e] => match parseExpr e with
     | some e => "ok\t" ++ (if nf e then "true" else "false")
     | none => bad
+  | "shape", [e] => match parseExpr e with
+    -- the pack-chain discipline on a query (Model/Shape.lean): shape kind, resOK, noLit
+    | some e =>
+      let k := match shapeOf (4 * e.size + 8) [] e with
+        | some s => if s.isOpq then "opq" else "pack"
+        | none => "none"
+      "ok\t" ++ k ++ " " ++ (if resOK e then "true" else "false") ++ " " ++ (if noLit e then "true" else "false")
+    | none => bad
   | "wfq", [e] => match parseExpr e with
     | some e => "ok\t" ++ (if wfq e then "true" else "false")
     | none => bad
